@@ -476,7 +476,11 @@ def part_sensor(ctx, o, c, N):
             for t in x.targets:
                 if is_self_attr(t):
                     ifield = t.attr
-    o.require(ifield is not None, f'{c.name}.__init__ no longer stores its sensing_interval argument in a field')
+    o.count()
+    if ifield is None:
+        o.fail(P, f'{c.name}.__init__', 'self._probing_interval = sensing_interval', 'the sensing_interval argument is not kept in a field: the sensor cannot measure every (interval + 1)-th part',
+               file=c.mod.path, line=init_.lineno)
+        return
 
     def refine(an_, test, truth, st, frame):
         r = cmp_norm(N, test, FrameEnv(frame), True)
